@@ -99,6 +99,12 @@ C05_ClosedHasDisc ==
 C05_NothingAfterDisc ==
     \A s \in Sid : \A i, j \in 1..Len(g.ev[s]) :
         (i < j /\ IsDisc(g.ev[s][i])) => IsMsgEv(g.ev[s][j])
+\* the statement itself: after the disconnect event no event results from a request or frame
+\* received afterwards.  A message event after it must stem from an input (POST body, frame)
+\* whose processing had begun before the disconnect event (g.evl records, per event,
+\* whether its input began after it).
+C05_NothingAfterDiscStrict ==
+    \A s \in Sid : \A j \in 1..Len(g.ev[s]) : IsMsgEv(g.ev[s][j]) => ~g.evl[s][j]
 \* a rejected session never sees another event
 C05_RejectedSilent ==
     \A s \in g.rejd : g.ev[s] = <<"connect">> /\ s \notin g.table
